@@ -174,6 +174,11 @@ def rk_bed(ctx):
         if len(exons) > 1:
             cds_opts.append(tuple(exons[1:]))
             cds_opts.append(tuple(exons[:1]))
+        # a CDS shorter than one codon: one base, two bases in one block, two bases split over an exon junction
+        cds_opts.append(((exons[0][0] + 1, exons[0][0] + 2),))
+        cds_opts.append(((exons[-1][1] - 2, exons[-1][1]),))
+        if len(exons) > 1 and exons[0][1] < exons[1][0]:
+            cds_opts.append(((exons[0][1] - 1, exons[0][1]), (exons[1][0], exons[1][0] + 1)))
         for sn in ("PLUS", "MINUS"):
             for w in windows:
                 if w is not None and w[0] < 0:
